@@ -59,13 +59,14 @@ class C04(Prop):
                 if n >= lim13:
                     break
         lim05 = 60 if tier == 'quick' else 600
-        n = 0
+        seen = {'sort': 0, 'issorted': 0, 'issorted_none': 0}
         for c in self._c05.cases(_r.Random(rng.randrange(1 << 30)), 'quick'):
-            if c.op in ('sort', 'issorted'):
+            kind = c.op
+            if kind == 'issorted' and c.arg[0] is None:
+                kind = 'issorted_none'      # whole-row keys, ragged rows included
+            if kind in seen and seen[kind] < lim05:
+                seen[kind] += 1
                 yield c
-                n += 1
-                if n >= lim05:
-                    break
 
     def _near(self, rng, a):
         """A value likely to be equal/adjacent to a."""
